@@ -30,6 +30,19 @@ class RunTimeout(BaseException):
     pass
 
 
+class HangAbort(BaseException):
+    """raised after MAX_HANGS executions of one case did not terminate: the case is reported as failing with what
+    was found so far instead of waiting RUN_TIMEOUT_S for each of its remaining executions"""
+
+    def __init__(self, infos):
+        super().__init__(f"{len(infos)} executions did not terminate")
+        self.infos = infos
+
+
+MAX_HANGS = int(os.environ.get("VERIF_MAX_HANGS", "2"))
+_hangs = []
+
+
 def load():
     """import tlexport from SRC (never from an installed copy elsewhere)"""
     global _loaded
@@ -163,6 +176,7 @@ def run_tlexport(capture: bytes, keylog, args=(), infile="in.pcapng", reset=True
     except RunTimeout:
         status = "hang"
         detail = f"run() did not return within {RUN_TIMEOUT_S} s"
+        _hangs.append({"args": [str(a) for a in args], "capture_sha": hashlib.sha256(capture).hexdigest()[:12], "capture_bytes": len(capture)})
     except SystemExit as e:
         status = f"exit:{e.code}"
     except BaseException as e:     # noqa - the status of the execution, not an error of ours
@@ -178,6 +192,10 @@ def run_tlexport(capture: bytes, keylog, args=(), infile="in.pcapng", reset=True
     if os.path.exists(outp):
         with open(outp, "rb") as f:
             out = f.read()
+    if status == "hang" and len(_hangs) >= MAX_HANGS:
+        infos = list(_hangs)
+        del _hangs[:]
+        raise HangAbort(infos)
     res = Result(status, out, detail)
     if want_objects:
         objs = (list(m.sessions), list(m.quic_sessions))
